@@ -2063,6 +2063,12 @@ class Interp(object):
                 return len(v)
             if hasattr(type(v), '__len__'):
                 return len(v)
+            if isinstance(v, Inst):
+                dc, m = self.model.lookup(v.ci, '__len__')
+                if isinstance(m, ast.FunctionDef):
+                    return self.call_func(
+                        Func(m, self.method_env(v, dc), dc), [], {}, v)
+                raise PyRaise('TypeError', node)
             raise Undecided('len(%r)' % (v,))
         if name == 'int':
             v = args[0]
